@@ -37,35 +37,51 @@ TECHNIQUE = (
 
 META = {
     "explanation": (
-        "R1: an inter-procedural exception-escape analysis shows that only MarkupError can leave parse_directive_text (TokenizeError "
-        "is caught where it is raised into, yaml errors are caught, the option converter - a foreign callable looked up in the "
-        "directive's option_spec - runs under `except Exception`). R2: the externally supplied additional_options flow, hop by hop, "
-        "from render_fence (fence_as_directive) to the merge in _parse_directive_options, and in that merge the operand derived from "
-        "the option tokenizer is the later (winning) operand. R3: the comparisons guarding the two MarkupError raises and the re-split in "
-        "parse_directive_arguments are brought to a linear normal form over {len(args), required, optional} and must be exactly "
-        "len < required / len > required+optional (not final_argument_whitespace) / maxsplit = required+optional-1 (final_argument_whitespace); "
-        "every path through parse_directive_text either calls parse_directive_arguments or is guarded by 'no arguments declared'. "
-        "R4: both option-style branches (--- and :) only produce the option-block text and the remaining content; tokenising, spec lookup, "
-        "conversion, result stores and warnings lie behind the join of the branches; per loop iteration the spec-lookup-failure and the "
-        "conversion-failure paths store nothing and report exactly once, the success path stores exactly once (key = the option's name, "
-        "value = the converter's result, converter = option_spec[name]) and reports nothing. R5: no definition of the reported body offset "
-        "combines the line count of a string that went through '\\n'.join (which loses a trailing empty line) with the line count of another "
-        "string; dropping the leading blank body line and incrementing the offset are control-equivalent, happen at most once and only "
-        "for a blank line; the first line is merged in front of the body only under a test that excludes whitespace-only text (the same notion of "
-        "blank the strip uses). R4 also: every return of the options parser hands back the dict filled by the validation loop, a dict no option "
-        "value can reach (flow-aware taint from additional_options and from the tokenizer result), or is one of the two documented bypasses "
-        "(validate_options=False, docutils TestDirective) whose guards are re-verified. R6: the regex that locates the closing --- delimiter is "
-        "parsed with re._parser; the number of newline characters a match can contain must be fixed, and pattern + slice offset must skip exactly "
-        "one line terminator."
+        "All rules analyse parsers/directives.py after *inlining* its private single-exit helpers at their call sites (parameters bound, locals "
+        "renamed, `return e` turned into the assignment of the call statement; line numbers kept, nothing executed), so a function split into "
+        "helpers is judged as the one function it is equivalent to; roles (option-spec lookup, converter call, validation loop, result dict, "
+        "warnings list, block text, remaining content) are found by data flow, never by name. "
+        "R1: inter-procedural exception-escape analysis - only MarkupError can leave parse_directive_text (TokenizeError is caught where it is "
+        "raised into, yaml errors incl. the plain ValueError of PyYAML's scalar constructors are caught, the option converter - a foreign callable "
+        "looked up in option_spec - runs under `except Exception`); int(<cursor character>) in a tokenizer helper is discharged only by a "
+        "caller-side digit test with no cursor movement in between. "
+        "R2: additional_options flow hop by hop from render_fence (fence_as_directive; value built from token.attrs, also through a helper) to the "
+        "merge in the options parser; in the merge the operand holding the tokenized block is the later (winning) one (dict display, |, |=, update, "
+        "dict(a, **b), M[k] = v with/without `k not in M`); behind the merge no store puts a possibly-default value under another key without an "
+        "absence test; a return that can be reached with defaults present but without their merge/validation must carry a warning or be one of the "
+        "two documented bypasses. "
+        "R3: the guards of the two MarkupError raises and of the re-split in parse_directive_arguments, as linear normal forms over {len(args), "
+        "required, optional}, are exactly len < required / len > required+optional and not final_argument_whitespace / maxsplit = "
+        "required+optional-1 under final_argument_whitespace; every path of parse_directive_text either calls parse_directive_arguments or crosses "
+        "an edge establishing 'no arguments declared' (truth table over the test's leaves). "
+        "R4: the options parser is only called under a test that implies a non-empty option_spec; the two option-style branches are mutually "
+        "exclusive, each assigns the block text and re-assigns the remaining content on every path, and no flag set differently by them is tested "
+        "behind their join; tokenise / yaml load / spec lookup / convert / store / warn lie behind the join; per loop iteration the lookup-failure and "
+        "conversion-failure paths store nothing and report exactly once, the success path stores exactly once (key = option name, value = converter "
+        "result, converter = option_spec[name]) and reports nothing; every return hands back the validated dict, a dict no option value can reach "
+        "(flow-aware taint), or is a documented bypass (validate_options=False, docutils TestDirective; guards re-verified). "
+        "R5: no definition of body_offset combines the line count of a string rebuilt with a lossy '\\n'.join with that of another string (origins "
+        "traced through the parser's result object and inlined helpers; a line-terminated join is lossless); dropping the leading blank body line "
+        "and `offset += 1` are control-equivalent, happen once and only under a blank test on body[0]; the first line is merged in front of the body "
+        "only under a test that excludes whitespace-only text. "
+        "R6: for every regex that cuts the content (parsed with re._parser) the number of newlines a match can contain is fixed, and pattern + "
+        "slice offset skip exactly one line terminator."
     ),
-    "not_decided": "the exact partition (body lines / offset values) for every content layout; the values converters return; what a `---` block's dedent does to values",
+    "not_decided": (
+        "the exact partition (body lines / offset values) for every content layout; the values converters return; what dedent does to a --- block; "
+        "whether a tolerated (reported) loss of the defaults on the tokenizer-error path is desirable; helpers with early returns or *args are not "
+        "inlined (the rules then answer ANALYSIS-ERROR if an anchor moved into one)"
+    ),
     "trusted_base": [
-        "CPython ast",
+        "CPython ast and re._parser",
         "engine call graph + escape analysis (DESIGN E3/E6) incl. the catalogue of fallible calls",
+        "the inlining transformation (single-exit private helpers, module-level, no recursion)",
         "docutils attribute names required_arguments / optional_arguments / final_argument_whitespace / option_spec / has_content",
     ],
     "assumptions": [
         "option converters are arbitrary callables (may raise anything); directive classes declare non-negative integer argument counts",
+        "tokenizer helpers are only called, never passed around as values (checked by reference count)",
+        "Esc(options_to_items) beyond the engine's catalogue is C07.R1's obligation",
     ],
 }
 
@@ -229,17 +245,133 @@ def path_counts(cfg, start, stops, weight) -> dict[object, set[int]]:
 # R1 closed failure mode
 
 
+STREAM_READS = ("peek", "prefix", "get_position")
+DIGITS = set("0123456789")
+
+
+def _advancing(stmt, q: str) -> bool:
+    """Does the CFG statement (header) call anything on / with the stream ``q`` that can move its cursor?"""
+    for r in _header_roots(stmt):
+        for c in ast.walk(r):
+            if isinstance(c, ast.Call):
+                if isinstance(c.func, ast.Attribute) and isinstance(c.func.value, ast.Name) and c.func.value.id == q and c.func.attr not in STREAM_READS:
+                    return True
+                if any(isinstance(a, ast.Name) and a.id == q for a in list(c.args) + [k.value for k in c.keywords]):
+                    return True
+    return False
+
+
+def _digit_precondition(corpus: Corpus, fq: str, text: str) -> str | None:
+    """``int(<p>.peek())`` at the start of a helper whose every call site is guarded by a digit test on the
+    same cursor character, with no cursor movement in between: reason string, or None if not established."""
+    g = get_callgraph(corpus)
+    try:
+        fi = corpus.func(fq.replace("myst_parser.", "", 1))
+    except AnchorMissing:
+        return None
+    if fi.is_lambda or fi.cls is not None:
+        return None
+    calls = [c for c in fi.local_nodes() if isinstance(c, ast.Call) and dotted(c.func) == "int" and len(c.args) == 1 and short(c) == text]
+    if len(calls) != 1:
+        return None
+    e = calls[0].args[0]
+    if isinstance(e, ast.Name):
+        v = single_value(fi, e.id)
+        e = v if v is not None else e
+    if not (isinstance(e, ast.Call) and isinstance(e.func, ast.Attribute) and e.func.attr == "peek" and not e.args and isinstance(e.func.value, ast.Name) and e.func.value.id in fi.params):
+        return None
+    p = e.func.value.id
+    if simple_defs(fi, p):
+        return None
+    cfg = get_cfg(fi)
+    st = cfg.stmt_of(calls[0])
+    # nothing moves the cursor between the helper's entry and the conversion
+    for a in cfg.nodes:
+        if isinstance(a, ast.stmt) and a is not st and _advancing(a, p) and st in cfg.reachable_from(a) and cfg.is_reachable(a):
+            return None
+    sites = g.callers().get(fi.fq, [])
+    refs = sum(1 for m_ in corpus.modules.values() for n in ast.walk(m_.tree) if isinstance(n, ast.Name) and n.id == fi.name and isinstance(n.ctx, ast.Load))
+    if not sites or refs != len(sites):
+        return None  # also passed around as a value
+    for caller, c in sites:
+        try:
+            arg = bind_args(c, fi).get(p)
+        except Unsupported:
+            return None
+        if not isinstance(arg, ast.Name) or caller.is_lambda:
+            return None
+        q = arg.id
+        ccfg = get_cfg(caller)
+        cst = ccfg.stmt_of(c)
+        ok = False
+        for dnode in ccfg.dom().get(cst, set()):
+            if not (isinstance(dnode, tuple) and dnode[0] in ("T", "F") and isinstance(dnode[1], (ast.If, ast.While))):
+                continue
+            for t, pol in split_facts(dnode[1].test, dnode[0] == "T"):
+                if not (pol and isinstance(t, ast.Compare) and len(t.ops) == 1 and isinstance(t.ops[0], ast.In) and isinstance(t.comparators[0], ast.Constant) and isinstance(t.comparators[0].value, str) and t.comparators[0].value and set(t.comparators[0].value) <= DIGITS):
+                    continue
+                left = t.left
+                movers = [a for a in ccfg.nodes if isinstance(a, ast.stmt) and a is not cst and _advancing(a, q)]
+                if isinstance(left, ast.Call) and unparse(left) == f"{q}.peek()":
+                    # no cursor movement between the test and the call
+                    if not any(a in ccfg.reachable_from(dnode) and cst in ccfg.reachable_from(a) for a in movers):
+                        ok = True
+                elif isinstance(left, ast.Name):
+                    defs = simple_defs(caller, left.id)
+                    if defs and all(v is not None and unparse(v) == f"{q}.peek()" for _, v in defs):
+                        isdef = lambda n, nm=left.id: isinstance(n, ast.stmt) and any(s_ is n for s_, _ in simple_defs(caller, nm))
+                        bad = False
+                        for d_, _ in defs:
+                            for a in movers:
+                                # the cursor may have moved since the character was read into the local
+                                if a in ccfg.reachable_from(d_) and ccfg.paths_avoiding(a, cst, isdef):
+                                    bad = True
+                        if not bad:
+                            ok = True
+        if not ok:
+            return None
+    return f"every call site of {fi.qualname} is guarded by a digit test on the cursor character and nothing moves the cursor before int()"
+
+
+class _Held(Report):
+    """Report proxy: ValueError findings about int(<cursor character>) inside the option tokenizer are held back
+    and re-judged with the caller-side digit precondition (the engine's digit guard is intra-procedural / by-name)."""
+
+    def __init__(self, real: Report, corpus: Corpus):
+        self.__dict__["_real"] = real
+        self.__dict__["_corpus"] = corpus
+
+    def __getattr__(self, name):
+        return getattr(self._real, name)
+
+    def __setattr__(self, name, value):
+        setattr(self._real, name, value)
+
+    def violation(self, rule_id, key, site, what, path=None):
+        mk = "|ValueError|origin=myst_parser.parsers.options:"
+        if mk in key:
+            fq_text = key.split("|origin=", 1)[1]
+            fq, _, text = fq_text.partition("|")
+            if text.startswith("int("):
+                why = _digit_precondition(self._corpus, fq, text)
+                if why:
+                    self._real.ok(rule_id, key, site, "discharged: " + why)
+                    return
+        self._real.violation(rule_id, key, site, what, path)
+
+
 @rule("C08.R1")
 def r1_failure_mode(corpus: Corpus, rep: Report, tier: str):
     escape_closure(
         corpus,
-        rep,
+        _Held(rep, corpus),
         "C08.R1",
         [(None, ENTRY_FQ, [MARKUP_ERROR])],
         "only MarkupError can leave parse_directive_text; the option converter (foreign callable) runs under `except Exception`",
     )
     # the converter call, located by role (callable looked up in <directive class>.option_spec), independent of the local's name
     vm = validation_machinery(corpus)
+    corpus = vm.corpus
     f = vm.f
     call = vm.conv_call
     k = f"{f.fq}|foreign converter call is under a handler that covers Exception"
@@ -278,6 +410,202 @@ def r1_failure_mode(corpus: Corpus, rep: Report, tier: str):
 # the option validation machinery of _parse_directive_options, located by role
 
 
+# ---------------------------------------------------------------------------
+# helper inlining: private single-exit helpers of the directives module are substituted at their call
+# sites (parameters bound, locals renamed, `return e` turned into the assignment of the call statement),
+# so that a function split into helpers is analysed as the one function it is equivalent to.
+# Nodes keep their line numbers; nothing is executed.
+
+
+def _single_exit_helper(fn: ast.FunctionDef) -> bool:
+    if not fn.name.startswith("_") or fn.name.startswith("__") or fn.decorator_list:
+        return False
+    a = fn.args
+    if a.vararg or a.kwarg or a.posonlyargs:
+        return False
+    if not fn.body or not isinstance(fn.body[-1], ast.Return):
+        return False
+    for n in ast.walk(fn):
+        if n is fn:
+            continue
+        if isinstance(n, (ast.FunctionDef, ast.AsyncFunctionDef, ast.ClassDef, ast.Yield, ast.YieldFrom, ast.Global, ast.Nonlocal, ast.Import, ast.ImportFrom, ast.Await)):
+            return False
+        if isinstance(n, ast.Return) and n is not fn.body[-1]:
+            return False
+        if isinstance(n, ast.Name) and n.id == fn.name:
+            return False
+    return True
+
+
+def _inline_call(stmt: ast.stmt, call: ast.Call, fn: ast.FunctionDef, prefix: str) -> list[ast.stmt] | None:
+    import copy
+
+    a = fn.args
+    pos = [x.arg for x in a.args]
+    kwonly = [x.arg for x in a.kwonlyargs]
+    if any(isinstance(x, ast.Starred) for x in call.args) or any(k.arg is None for k in call.keywords) or len(call.args) > len(pos):
+        return None
+    bound: dict[str, ast.expr] = {}
+    for i, e in enumerate(call.args):
+        bound[pos[i]] = e
+    for k in call.keywords:
+        if k.arg in bound or k.arg not in pos + kwonly:
+            return None
+        bound[k.arg] = k.value
+    defaults = dict(zip(pos[len(pos) - len(a.defaults) :], a.defaults))
+    defaults.update({n: d for n, d in zip(kwonly, a.kw_defaults) if d is not None})
+    for p_ in pos + kwonly:
+        if p_ not in bound:
+            if p_ not in defaults:
+                return None
+            bound[p_] = defaults[p_]
+    body = copy.deepcopy(fn.body)
+    local = set(pos + kwonly)
+    for st in body:
+        for n in ast.walk(st):
+            if isinstance(n, ast.Name) and isinstance(n.ctx, (ast.Store, ast.Del)):
+                local.add(n.id)
+            elif isinstance(n, ast.ExceptHandler) and n.name:
+                local.add(n.name)
+    for st in body:
+        for n in ast.walk(st):
+            if isinstance(n, ast.Name) and n.id in local:
+                n.id = prefix + n.id
+            elif isinstance(n, ast.ExceptHandler) and n.name in local:
+                n.name = prefix + n.name
+    out: list[ast.stmt] = []
+    for p_ in pos + kwonly:
+        b = ast.Assign(targets=[ast.Name(id=prefix + p_, ctx=ast.Store())], value=copy.deepcopy(bound[p_]))
+        b._c08_glue = True  # parameter binding generated by the inliner
+        ast.copy_location(b, stmt)
+        out.append(b)
+    ret = body.pop()
+    out.extend(body)
+    val = ret.value if ret.value is not None else ast.Constant(value=None)
+    if isinstance(stmt, ast.Expr):
+        new = [ast.Expr(value=val)]
+    else:
+        tgt = stmt.targets[0] if isinstance(stmt, ast.Assign) else stmt.target
+        if isinstance(tgt, ast.Tuple) and isinstance(val, ast.Tuple) and len(tgt.elts) == len(val.elts) and all(isinstance(e, ast.Name) for e in tgt.elts):
+            new = [ast.Assign(targets=[t_], value=v_) for t_, v_ in zip(tgt.elts, val.elts)]
+        else:
+            new = [ast.Assign(targets=[tgt], value=val)]
+    for n in new:
+        n._c08_glue = True  # result assignment generated by the inliner
+        ast.copy_location(n, ret)
+        out.append(n)
+    for n in out:
+        ast.fix_missing_locations(n)
+    return out
+
+
+def _inline_block(stmts: list, helpers: dict, counter: list) -> tuple[list, bool]:
+    out: list = []
+    changed = False
+    for st in stmts:
+        call = None
+        if isinstance(st, ast.Assign) and len(st.targets) == 1 and isinstance(st.value, ast.Call):
+            call = st.value
+        elif isinstance(st, ast.AnnAssign) and isinstance(st.value, ast.Call) and isinstance(st.target, ast.Name):
+            call = st.value
+        elif isinstance(st, ast.Expr) and isinstance(st.value, ast.Call):
+            call = st.value
+        if call is not None and isinstance(call.func, ast.Name) and call.func.id in helpers:
+            counter[0] += 1
+            new = _inline_call(st, call, helpers[call.func.id], f"_{call.func.id.strip('_')}{counter[0]}__")
+            if new is not None:
+                out.extend(new)
+                changed = True
+                continue
+        for fld in ("body", "orelse", "finalbody"):
+            blk = getattr(st, fld, None)
+            if isinstance(blk, list) and blk and isinstance(blk[0], ast.stmt):
+                nb, ch = _inline_block(blk, helpers, counter)
+                if ch:
+                    setattr(st, fld, nb)
+                    changed = True
+        for h in getattr(st, "handlers", []) or []:
+            nb, ch = _inline_block(h.body, helpers, counter)
+            if ch:
+                h.body = nb
+                changed = True
+        out.append(st)
+    return out, changed
+
+
+def inlined(corpus: Corpus) -> Corpus:
+    """The corpus with the private single-exit helpers of parsers/directives.py inlined into their callers
+    (the entry function parse_directive_text is left alone). The original corpus if there is nothing to inline."""
+    return corpus.cache("c08-inlined", lambda: _build_inlined(corpus))
+
+
+def _build_inlined(corpus: Corpus) -> Corpus:
+    from ..corpus import Module
+
+    m = corpus.mod(MOD)
+    tree = ast.parse(m.src)
+    any_change = False
+    for _ in range(3):
+        funcs = [n for n in tree.body if isinstance(n, ast.FunctionDef)]
+        helpers = {fn.name: fn for fn in funcs if _single_exit_helper(fn)}
+        if not helpers:
+            break
+        changed = False
+        counter = [0]
+        for host in funcs:
+            if host.name == "parse_directive_text":
+                continue
+            usable = {k: v for k, v in helpers.items() if k != host.name}
+            nb, ch = _inline_block(host.body, usable, counter)
+            if ch:
+                host.body = nb
+                changed = True
+        any_change |= changed
+        if not changed:
+            break
+    if not any_change:
+        return corpus
+    nm = Module.__new__(Module)
+    nm.name, nm.path, nm.rel, nm.src, nm.lines = m.name, m.path, m.rel, m.src, m.lines
+    nm.tree = tree
+    nm.imports, nm.star_imports, nm.functions, nm.classes, nm.const_nodes = {}, [], {}, {}, {}
+    nm._index()
+    mods = dict(corpus.modules)
+    mods[m.name] = nm
+    return Corpus(corpus.root, mods)
+
+
+def alias_closure(fi: FunctionInfo, name: str) -> set[str]:
+    """``name`` plus the locals connected to it by the copy statements the inliner generated (parameter binding
+    in, result assignment out), transitively. Ordinary copies written in the source are not followed."""
+    s = {name}
+    changed = True
+    while changed:
+        changed = False
+        for n in fi.local_nodes():
+            if isinstance(n, ast.Assign) and getattr(n, "_c08_glue", False) and len(n.targets) == 1 and isinstance(n.targets[0], ast.Name) and isinstance(n.value, ast.Name):
+                a, b = n.targets[0].id, n.value.id
+                if (a in s) != (b in s):
+                    s |= {a, b}
+                    changed = True
+    return s
+
+
+def real_assign(fi: FunctionInfo, names: set[str]):
+    """Predicate: statement binds one of ``names`` to something that is not a plain copy within ``names``."""
+
+    def pred(n) -> bool:
+        if not isinstance(n, ast.stmt):
+            return False
+        for nm in names:
+            for s_, v in simple_defs(fi, nm):
+                if s_ is n and not (isinstance(v, ast.Name) and v.id in names):
+                    return True
+        return False
+
+    return pred
+
+
 class Machinery:
     pass
 
@@ -287,11 +615,13 @@ def validation_machinery(corpus: Corpus) -> Machinery:
 
 
 def _machinery(corpus: Corpus) -> Machinery:
+    corpus = inlined(corpus)
     g = get_callgraph(corpus)
     m = corpus.mod(MOD)
     entry = m.func("parse_directive_text")
     vm = Machinery()
     vm.entry = entry
+    vm.corpus = corpus
     # the options function: the callee of parse_directive_text that reads <param>.option_spec
     cands = []
     for call, targets in g.callees(entry):
@@ -379,21 +709,41 @@ def _machinery(corpus: Corpus) -> Machinery:
             stores.append(n)
     final_call = vm.final_returns[0][1]
     final_args = {fld: ctor_field(final_call, vm.fields, fld) for fld in vm.fields}
-    by_name = {unparse(v): fld for fld, v in final_args.items() if isinstance(v, ast.Name)}
+    by_name = {}
+    for fld, v in final_args.items():
+        if isinstance(v, ast.Name):
+            for al in alias_closure(f, v.id):
+                by_name.setdefault(al, fld)
     res_names = {n.value.id for n in stores if n.value.id in by_name}
     if len(res_names) != 1:
         raise Unsupported(f"expected the loop to store into exactly one returned dict, found {sorted(res_names)}")
     vm.res_name = res_names.pop()
+    vm.res_aliases = alias_closure(f, vm.res_name)
     vm.options_field = by_name[vm.res_name]
-    # warnings list: the returned Name that receives .append(ParseWarnings(...)) in the function
-    warn_names = set()
+    # warnings list: the returned Name that receives .append(ParseWarnings(...)) / .extend(...) in the function
+    warn_fields = set()
     for n in f.local_nodes():
-        if isinstance(n, ast.Call) and isinstance(n.func, ast.Attribute) and n.func.attr == "append" and isinstance(n.func.value, ast.Name) and n.func.value.id in by_name and n.func.value.id != vm.res_name:
-            warn_names.add(n.func.value.id)
-    if len(warn_names) != 1:
-        raise Unsupported(f"expected one returned warnings list, found {sorted(warn_names)}")
-    vm.warn_name = warn_names.pop()
-    vm.warn_field = by_name[vm.warn_name]
+        if isinstance(n, ast.Call) and isinstance(n.func, ast.Attribute) and n.func.attr in ("append", "extend") and isinstance(n.func.value, ast.Name) and n.func.value.id in by_name and n.func.value.id not in vm.res_aliases:
+            warn_fields.add(by_name[n.func.value.id])
+    if len(warn_fields) != 1:
+        raise Unsupported(f"expected one returned warnings list, found fields {sorted(warn_fields)}")
+    vm.warn_field = warn_fields.pop()
+    vm.warn_name = unparse(final_args[vm.warn_field])
+    # every list whose elements end up in the returned warnings: aliases and sources of W.extend(X) / W += X
+    ws = alias_closure(f, vm.warn_name)
+    grew = True
+    while grew:
+        grew = False
+        for n in f.local_nodes():
+            src_ = None
+            if isinstance(n, ast.Call) and isinstance(n.func, ast.Attribute) and n.func.attr == "extend" and isinstance(n.func.value, ast.Name) and n.func.value.id in ws and len(n.args) == 1 and isinstance(n.args[0], ast.Name):
+                src_ = n.args[0].id
+            elif isinstance(n, ast.AugAssign) and isinstance(n.op, ast.Add) and isinstance(n.target, ast.Name) and n.target.id in ws and isinstance(n.value, ast.Name):
+                src_ = n.value.id
+            if src_ is not None and src_ not in ws:
+                ws |= alias_closure(f, src_)
+                grew = True
+    vm.warn_set = ws
     # content field: the remaining field whose argument is a Name in every return
     rest = [fld for fld in vm.fields if fld not in (vm.options_field, vm.warn_field)]
     content_names = {}
@@ -529,6 +879,35 @@ def _post_merge_stores(fi: FunctionInfo, merge_st: ast.stmt, merged: set[str], a
     return out
 
 
+def _bypass_verdict(vm, t: FunctionInfo, ret: ast.Return) -> tuple[str, str]:
+    """A return of the options parser that skips the merge of the additional options."""
+    cfg = get_cfg(t)
+    gs = cfg.guards(ret)
+    try:
+        call_bind = bind_args(vm.options_call, t)
+    except Unsupported:
+        call_bind = {}
+    raw_params = {p_ for p_, e_ in call_bind.items() if "validate_options" in names_in(e_)}
+    if any(pol and isinstance(t_, ast.Name) and t_.id in raw_params for t_, pol in gs):
+        return ("listed", "validate_options=False (raw YAML requested by the caller)")
+    if any(pol and isinstance(t_, ast.Call) and dotted(t_.func) == "issubclass" and len(t_.args) == 2 and t.module.resolve(dotted(t_.args[1]) or "").endswith(".TestDirective") for t_, pol in gs):
+        return ("listed", "docutils' TestDirective accepts anything (testing only)")
+    if not isinstance(ret.value, ast.Call):
+        return ("listed", "return shape not understood")
+    w = ctor_field(ret.value, vm.fields, vm.warn_field)
+    if isinstance(w, (ast.List, ast.Tuple)):
+        if w.elts:
+            return ("listed", "reported: the returned warnings list is not empty")
+        return ("bad", "valid defaults (e.g. fence attributes for fence_as_directive) vanish and unknown ones are dropped without the 'Unknown option keys' warning")
+    if isinstance(w, ast.Name):
+        ws = alias_closure(t, w.id)
+        counts = path_counts(cfg, ENTRY, [ret], lambda n: 1 if _stmt_calls(n, lambda c: any(_is_call_on(c, x, ("append", "extend", "insert")) for x in ws)) else 0).get(ret, set())
+        if counts and 0 not in counts:
+            return ("listed", "reported: a warning is appended on every path to this return")
+        return ("bad", "on some path no warning is recorded either: valid defaults vanish and unknown ones are dropped silently")
+    return ("listed", "warnings expression not understood")
+
+
 def _merge_verdict(corpus: Corpus, fi: FunctionInfo, add_param: str):
     """[(stmt, verdict, text)] for every statement that combines the additional-options operand with the block operand."""
     toks = _tokenizer_calls(corpus, fi)
@@ -637,6 +1016,7 @@ def _forward(corpus: Corpus, fi: FunctionInfo, name: str, goal, depth: int = 0, 
 def r2_priority(corpus: Corpus, rep: Report, tier: str):
     rep.rule("C08.R2", "additional_options reach the option merge hop by hop, and there the block's options are the later (winning) operand")
     vm = validation_machinery(corpus)
+    corpus = vm.corpus
     entry = vm.entry
     if "additional_options" not in entry.params:
         raise AnchorMissing("parse_directive_text has no parameter `additional_options`")
@@ -692,16 +1072,68 @@ def r2_priority(corpus: Corpus, rep: Report, tier: str):
                 rep.violation("C08.R2", kk, t.module.site(st), f"`{short(st, 70)}`: {text}")
             else:
                 rep.error("C08.R2", text)
-        # returns of the merge function that bypass the merge: evidence only
+        # returns that can be reached with additional options present but without passing the merge:
+        # tolerated when the loss is reported (a warning is returned) or the path is a documented bypass; silent loss is a violation
         cfg = get_cfg(t)
         ok_stmts = [st for st, v, _ in mv if v in ("ok", "bad")]
+        # further statements that hand the defaults to the dict the validation loop iterates (e.g. `options = dict(additional_options or {})`)
+        if t.fq == vm.f.fq:
+            for st_ in t.local_nodes():
+                tg_: list[str] = []
+                val_ = None
+                if isinstance(st_, ast.Assign):
+                    tg_, val_ = [x for t2 in st_.targets for x in target_names(t2)], st_.value
+                elif isinstance(st_, ast.AnnAssign) and st_.value is not None:
+                    tg_, val_ = target_names(st_.target), st_.value
+                elif isinstance(st_, ast.Expr) and isinstance(st_.value, ast.Call) and isinstance(st_.value.func, ast.Attribute) and isinstance(st_.value.func.value, ast.Name) and st_.value.func.attr in MUTATORS:
+                    tg_, val_ = [st_.value.func.value.id], ast.Tuple(elts=list(st_.value.args), ctx=ast.Load())
+                if val_ is None or p not in names_in(val_) or st_ in ok_stmts:
+                    continue
+                if any(vm.merged_name in _taint(t, {x}, None) for x in tg_):
+                    ok_stmts.append(st_)
+
+        def no_defaults_edge(x) -> bool:
+            if not (isinstance(x, tuple) and x[0] in ("T", "F") and isinstance(x[1], (ast.If, ast.While))):
+                return False
+            for t_, pol in split_facts(x[1].test, x[0] == "T"):
+                if isinstance(t_, ast.Name) and t_.id == p and not pol:
+                    return True
+                if isinstance(t_, ast.Compare) and len(t_.ops) == 1 and isinstance(t_.left, ast.Name) and t_.left.id == p and isinstance(t_.comparators[0], ast.Constant) and t_.comparators[0].value is None:
+                    if (isinstance(t_.ops[0], ast.Is) and pol) or (isinstance(t_.ops[0], ast.IsNot) and not pol):
+                        return True
+            return False
+
         for n in t.local_nodes():
-            if isinstance(n, ast.Return) and ok_stmts and cfg.paths_avoiding(ENTRY, n, lambda x: x in ok_stmts):
-                rep.listed("C08.R2", f"{t.fq}|return bypasses the merge|{short(n, 60)}", t.module.site(n), "additional options are not applied on this path (validate_options=False / TestDirective / tokenizer error)")
+            if not (isinstance(n, ast.Return) and ok_stmts and cfg.paths_avoiding(ENTRY, n, lambda x: x in ok_stmts or no_defaults_edge(x))):
+                continue
+            kb = f"{t.fq}|additional options are applied or their loss is reported|{short(n, 60)}"
+            verdict = _bypass_verdict(vm, t, n) if t.fq == vm.f.fq else ("listed", "not the options parser")
+            if verdict[0] == "bad":
+                rep.violation("C08.R2", kb, t.module.site(n), f"`{short(n, 60)}` can be reached with additional options supplied, without passing their merge and validation, and returns no warning: " + verdict[1])
+            else:
+                rep.listed("C08.R2", kb, t.module.site(n), "additional options are not applied on this path: " + verdict[1])
     # (b) the fence_as_directive mechanism: token attributes -> parse_directive_text(additional_options=)
     base = corpus.mod("mdit_to_docutils.base")
     rf = base.func("DocutilsRenderer.render_fence")
     cfg = get_cfg(rf)
+    g = get_callgraph(corpus)
+
+    def from_attrs(e: ast.AST, fi: FunctionInfo, depth: int = 0) -> bool:
+        """Is the value built from ``<token>.attrs`` (directly, through a local, or by a package helper that returns such a value)?"""
+        if depth > 3:
+            return False
+        for x in ast.walk(e):
+            if isinstance(x, ast.Attribute) and x.attr == "attrs":
+                return True
+            if isinstance(x, ast.Name) and any(v is not None and v is not e and from_attrs(v, fi, depth + 1) for _, v in simple_defs(fi, x.id)):
+                return True
+            if isinstance(x, ast.Call):
+                for t_ in g.resolve_call(x, fi):
+                    if isinstance(t_, FunctionInfo) and not t_.is_lambda and any(isinstance(r_, ast.Return) and r_.value is not None and from_attrs(r_.value, t_, depth + 1) for r_ in t_.local_nodes()):
+                        return True
+        return False
+
+    goal_api = lambda t, p: t.fq == entry.fq and p == "additional_options"
     starts = []
     for n in rf.local_nodes():
         if not isinstance(n, ast.Call) or not isinstance(n.func, ast.Attribute):
@@ -710,16 +1142,28 @@ def r2_priority(corpus: Corpus, rep: Report, tier: str):
         gs = cfg.guards(st)
         if not any(pol and any(isinstance(x, ast.Attribute) and x.attr == "fence_as_directive" for x in ast.walk(t_)) for t_, pol in gs):
             continue
-        for e in list(n.args) + [kw.value for kw in n.keywords]:
-            for nm in sorted(names_in(e)):
-                holders_src = [v for _, v in simple_defs(rf, nm) if v is not None]
-                if any(isinstance(x, ast.Attribute) and x.attr == "attrs" for v in holders_src for x in ast.walk(v)) and (n, nm) not in starts:
-                    starts.append((n, nm))
+        for t_ in g.resolve_call(n, rf):
+            if not isinstance(t_, FunctionInfo) or t_.is_lambda:
+                continue
+            try:
+                bound = bind_args(n, t_)
+            except Unsupported:
+                continue
+            for p_, e in bound.items():
+                if from_attrs(e, rf) and not any(c_ is n and q_ == p_ for c_, _, q_ in starts):
+                    starts.append((n, t_, p_))
     if not starts:
         rep.error("C08.R2", "render_fence: no call under the fence_as_directive guard passes a value built from token.attrs")
         return
-    for call, nm in starts:
-        hops, why = _forward(corpus, rf, nm, lambda t, p: t.fq == entry.fq and p == "additional_options")
+    for call, callee, p_ in starts:
+        if goal_api(callee, p_):
+            hops, why = [], ""
+        else:
+            hops, why = _forward(corpus, callee, p_, goal_api)
+        if hops is not None:
+            hops = [(rf, call, callee, p_)] + hops
+        elif why == "dropped":
+            why = f"dropped in {callee.fq}"
         k = f"{rf.fq}|fence attributes reach parse_directive_text(additional_options=)"
         if hops is None:
             if why.startswith("dropped"):
@@ -883,6 +1327,7 @@ def _establishes_no_args(test: ast.expr, pol: bool, cls_name: str) -> bool:
 @rule("C08.R3")
 def r3_argument_counts(corpus: Corpus, rep: Report, tier: str):
     rep.rule("C08.R3", "too few: len < required -> MarkupError; too many: len > required+optional -> re-split(maxsplit=required+optional-1) iff final_argument_whitespace else MarkupError; enforcement is reached for every directive that declares arguments")
+    corpus = inlined(corpus)
     m = corpus.mod(MOD)
     f = m.func("parse_directive_arguments")
     cfg = get_cfg(f)
@@ -1083,6 +1528,7 @@ def _stmt_calls(st, pred) -> bool:
 def r4_one_validation_path(corpus: Corpus, rep: Report, tier: str):
     rep.rule("C08.R4", "both option styles only produce block text + remaining content; tokenise/lookup/convert/store/warn happen once behind their join; failure paths store nothing and report once, success stores once")
     vm = validation_machinery(corpus)
+    corpus = vm.corpus
     f, cfg, m = vm.f, vm.cfg, vm.f.module
     loop = vm.loop
     rep.saw_function(f.fq)
@@ -1098,7 +1544,13 @@ def r4_one_validation_path(corpus: Corpus, rep: Report, tier: str):
                         # a parameter, or a local bound once to an expression over parameters (hoisted `content.lstrip()`)
                         if nm in f.params:
                             return True
-                        v = single_value(f, nm) if depth < 3 else None
+                        if depth > 3:
+                            return False
+                        defs_ = [v_ for _, v_ in simple_defs(f, nm)]
+                        # a copy of a parameter (binding introduced by inlining a helper), possibly re-assigned later
+                        if any(isinstance(v_, ast.Name) and v_.id != nm and from_params(v_.id, depth + 1) for v_ in defs_):
+                            return True
+                        v = single_value(f, nm)
                         return v is not None and bool(names_in(v)) and all(from_params(x, depth + 1) for x in names_in(v))
 
                     if roots and all(from_params(x.id) for x in roots) and not cfg.loops.get(n):
@@ -1117,6 +1569,7 @@ def r4_one_validation_path(corpus: Corpus, rep: Report, tier: str):
         rep.error("C08.R4", "the tokenizer argument is not a local name")
         return
     V = tok.args[0].id
+    VS = alias_closure(f, V)
     tok_stmt = cfg.stmt_of(tok)
     # the style branches are mutually exclusive: at most one of them consumes (part of) the content
     for s1, s2 in (("---", ":"), (":", "---")):
@@ -1128,11 +1581,11 @@ def r4_one_validation_path(corpus: Corpus, rep: Report, tier: str):
         # reachable in the graph: only harmless when the second test requires that no block was found yet
         needs_unset = False
         for t_, pol in split_facts(i2.test, True):
-            if pol and isinstance(t_, ast.Compare) and len(t_.ops) == 1 and isinstance(t_.ops[0], ast.Is) and isinstance(t_.left, ast.Name) and t_.left.id == V and isinstance(t_.comparators[0], ast.Constant) and t_.comparators[0].value is None:
+            if pol and isinstance(t_, ast.Compare) and len(t_.ops) == 1 and isinstance(t_.ops[0], ast.Is) and isinstance(t_.left, ast.Name) and t_.left.id in VS and isinstance(t_.comparators[0], ast.Constant) and t_.comparators[0].value is None:
                 needs_unset = True
-            if not pol and isinstance(t_, ast.Name) and t_.id == V:
+            if not pol and isinstance(t_, ast.Name) and t_.id in VS:
                 needs_unset = True
-        if needs_unset and not cfg.paths_avoiding(("T", i1), i2, assigns_name(f, V)):
+        if needs_unset and not cfg.paths_avoiding(("T", i1), i2, real_assign(f, VS)):
             rep.ok("C08.R4", k, m.site(i2), f"guarded by `{V}` being unset, which the {s1!r} branch always sets")
         else:
             rep.violation(
@@ -1147,13 +1600,14 @@ def r4_one_validation_path(corpus: Corpus, rep: Report, tier: str):
     cc = {
         fld: nm
         for fld, nm in vm.content_candidates.items()
-        if any(isinstance(s_, ast.stmt) and any(cfg.dominates(("T", i), s_) for i in styles.values()) for s_, _ in simple_defs(f, nm))
+        if any(isinstance(s_, ast.stmt) and any(cfg.dominates(("T", i), s_) for i in styles.values()) for al in alias_closure(f, nm) for s_, _ in simple_defs(f, al))
         and any(t.startswith(("joined@", "param:", "terminated-lines@")) for t in so.string(ast.Name(id=nm, ctx=ast.Load()), f))
     }
     if len(cc) != 1:
         rep.error("C08.R4", f"cannot identify the remaining-content field of {vm.result_cls.name}: {vm.content_candidates}")
         return
     content_field, C = next(iter(cc.items()))
+    CS = alias_closure(f, C)
     final_ret = vm.final_returns[0][0]
 
     def assigns(name):
@@ -1164,12 +1618,12 @@ def r4_one_validation_path(corpus: Corpus, rep: Report, tier: str):
         t_edge = ("T", iff)
         site = m.site(iff)
         k = f"{f.fq}|style {sty!r} branch produces the option-block text"
-        if cfg.paths_avoiding(t_edge, tok_stmt, assigns(V)):
+        if cfg.paths_avoiding(t_edge, tok_stmt, real_assign(f, VS)):
             rep.violation("C08.R4", k, site, f"a path through the {sty!r} branch reaches the tokenizer without assigning its input `{V}`: options written in this style are not parsed")
         else:
             rep.ok("C08.R4", k, site)
         k = f"{f.fq}|style {sty!r} branch removes the option lines from the content"
-        if cfg.paths_avoiding(t_edge, final_ret, assigns(C)):
+        if any(cfg.paths_avoiding(t_edge, r_, real_assign(f, CS)) for r_, _ in vm.returns if r_ in cfg.reachable_from(t_edge)):
             rep.violation("C08.R4", k, site, f"a path through the {sty!r} branch reaches the result without re-assigning the remaining content `{C}`: the option lines leak into the body")
         else:
             rep.ok("C08.R4", k, site)
@@ -1200,7 +1654,7 @@ def r4_one_validation_path(corpus: Corpus, rep: Report, tier: str):
             if isinstance(n, ast.Name) and isinstance(n.ctx, ast.Load):
                 read_behind.add(n.id)
     for x, per in sorted(in_branch.items()):
-        if x == V or x == C or x not in read_behind:
+        if x in VS or x in CS or x not in read_behind:
             continue
         k = f"{f.fq}|`{x}` set in an option-style branch and read behind the join"
         vals = [tuple(per.get(s, ())) for s in ("---", ":")]
@@ -1220,7 +1674,7 @@ def r4_one_validation_path(corpus: Corpus, rep: Report, tier: str):
     for n in f.local_nodes():
         if isinstance(n, ast.Subscript) and isinstance(n.ctx, ast.Store) and isinstance(n.value, ast.Name) and n.value.id == vm.res_name:
             steps.append(("store into result", n))
-        if _is_call_on(n, vm.warn_name, ("append", "extend", "insert")):
+        if any(_is_call_on(n, w_, ("append", "extend", "insert")) for w_ in vm.warn_set):
             steps.append(("warning", n))
         if isinstance(n, ast.Call) and f.module.resolve(dotted(n.func) or "").endswith(".ParseWarnings"):
             steps.append(("warning object", n))
@@ -1265,7 +1719,7 @@ def r4_one_validation_path(corpus: Corpus, rep: Report, tier: str):
         if isinstance(n, ast.If) and n in after and not any(a is loop for a in ancestors(n)):
             for t, pol in split_facts(n.test, True):
                 if pol and isinstance(t, ast.Name):
-                    napp = [c for s in n.body for c in ast.walk(s) if _is_call_on(c, vm.warn_name, ("append",))]
+                    napp = [c for s in n.body for c in ast.walk(s) if any(_is_call_on(c, w_, ("append",)) for w_ in vm.warn_set)]
                     if len(napp) == 1 and len(n.body) == 1:
                         ulists[t.id] = n
 
@@ -1277,7 +1731,7 @@ def r4_one_validation_path(corpus: Corpus, rep: Report, tier: str):
         return 1 if _stmt_calls(n, lambda c: _is_call_on(c, vm.res_name, ("update", "setdefault", "__setitem__"))) else 0
 
     def w_warn(n):
-        return 1 if _stmt_calls(n, lambda c: _is_call_on(c, vm.warn_name, ("append", "extend", "insert"))) else 0
+        return 1 if _stmt_calls(n, lambda c: any(_is_call_on(c, w_, ("append", "extend", "insert")) for w_ in vm.warn_set)) else 0
 
     def w_report(n):
         return 1 if (w_warn(n) or _stmt_calls(n, lambda c: any(_is_call_on(c, u, ("append",)) for u in ulists))) else 0
@@ -1358,8 +1812,55 @@ def r4_one_validation_path(corpus: Corpus, rep: Report, tier: str):
             rep.ok("C08.R4", k, m.site(iff))
         else:
             rep.violation("C08.R4", k, m.site(iff), f"a path from the loop to the result skips the report of `{u}`")
-    # ---- every return hands back validated options, an empty dict, or is a documented bypass
+    # ---- an option block is only looked for when the directive declares at least one option
     entry = vm.entry
+    ecfg = get_cfg(entry)
+    ocall_st = ecfg.stmt_of(vm.options_call)
+    k = f"{entry.fq}|an option block is only looked for when the directive declares options"
+    strong, weak, other = [], [], []
+    for t_, pol in ecfg.guards(ocall_st):
+        if not any(isinstance(x, ast.Attribute) and x.attr == "option_spec" for x in ast.walk(t_)) and not (isinstance(t_, ast.Name) and is_attr_of(t_, "option_spec", entry)):
+            continue
+        txt = ("" if pol else "not ") + unparse(t_)
+        def spec(x) -> bool:
+            if isinstance(x, ast.BoolOp) and isinstance(x.op, ast.Or) and all(isinstance(v_, (ast.Tuple, ast.List, ast.Dict, ast.Set)) and not getattr(v_, "elts", getattr(v_, "keys", None)) for v_ in x.values[1:]):
+                x = x.values[0]  # `spec or {}`
+            return is_attr_of(x, "option_spec", entry)
+
+        if spec(t_):
+            (strong if pol else other).append(txt)
+        elif isinstance(t_, ast.Call) and dotted(t_.func) == "len" and len(t_.args) == 1 and spec(t_.args[0]):
+            (strong if pol else other).append(txt)
+        elif isinstance(t_, ast.Compare) and len(t_.ops) == 1 and isinstance(t_.left, ast.Call) and dotted(t_.left.func) == "len" and t_.left.args and spec(t_.left.args[0]) and isinstance(t_.comparators[0], ast.Constant) and ((isinstance(t_.ops[0], ast.Gt) and t_.comparators[0].value == 0) or (isinstance(t_.ops[0], ast.GtE) and t_.comparators[0].value == 1)) and pol:
+            strong.append(txt)
+        elif isinstance(t_, ast.Compare) and len(t_.ops) == 1 and spec(t_.left) and isinstance(t_.comparators[0], ast.Dict) and not t_.comparators[0].keys and ((isinstance(t_.ops[0], ast.NotEq) and pol) or (isinstance(t_.ops[0], ast.Eq) and not pol)):
+            other.append(txt)  # excludes the empty spec but lets None through: not decided here
+        elif isinstance(t_, ast.Compare) and len(t_.ops) == 1 and spec(t_.left) and isinstance(t_.comparators[0], ast.Constant) and t_.comparators[0].value is None and ((isinstance(t_.ops[0], (ast.IsNot, ast.NotEq)) and pol) or (isinstance(t_.ops[0], (ast.Is, ast.Eq)) and not pol)):
+            weak.append(txt)
+        elif isinstance(t_, ast.Call) and dotted(t_.func) in ("isinstance", "hasattr") and pol:
+            weak.append(txt)
+        else:
+            other.append(txt)
+    moved = not strong and not weak and not other and any(
+        isinstance(n_, (ast.If, ast.IfExp, ast.While)) and any(isinstance(x, ast.Attribute) and x.attr == "option_spec" or (isinstance(x, ast.Name) and is_attr_of(x, "option_spec", f)) for x in ast.walk(n_.test))
+        for n_ in f.local_nodes()
+    )
+    if strong:
+        rep.ok("C08.R4", k, entry.module.site(vm.options_call), f"guarded by {strong[0]}")
+    elif moved:
+        rep.error("C08.R4", f"{entry.module.site(vm.options_call)}: the option_spec test was moved into {f.qualname}; its effect on the content is not modelled")
+    elif other:
+        rep.error("C08.R4", f"{entry.module.site(vm.options_call)}: test on option_spec not understood: {other[0]}")
+    else:
+        why = f"only guarded by `{weak[0]}`, which also holds for an empty option_spec" if weak else "not guarded by a test on the directive's option_spec"
+        rep.violation(
+            "C08.R4",
+            k,
+            entry.module.site(vm.options_call),
+            f"the option parser is called {why}: for a directive that declares no options (option_spec = {{}}: only, versionadded, centered, ...) leading ':key:' lines or a leading '---' section "
+            "of the body are consumed as an option block (body lines lost, offset shifted, spurious 'Unknown option keys' warning)",
+        )
+    # ---- every return hands back validated options, an empty dict, or is a documented bypass
     try:
         call_bind = bind_args(vm.options_call, f)
     except Unsupported:
@@ -1378,7 +1879,7 @@ def r4_one_validation_path(corpus: Corpus, rep: Report, tier: str):
         if e is None:
             rep.error("C08.R4", f"{site}: return without an options field")
             continue
-        if isinstance(e, ast.Name) and e.id == vm.res_name:
+        if isinstance(e, ast.Name) and e.id in vm.res_aliases:
             if ret is final_ret:
                 rep.ok("C08.R4", k, site, "the dict filled by the validation loop")
             else:
@@ -1403,7 +1904,7 @@ def r4_one_validation_path(corpus: Corpus, rep: Report, tier: str):
             rep.violation("C08.R4", k, site, f"`{short(ret, 60)}` hands back option values from {src_} that never passed the option_spec lookup/conversion loop: unknown or invalid options are kept, unconverted and without a warning")
         else:
             rep.ok("C08.R4", k, site, "no option value can reach this dict (only empty-dict definitions reach the return)")
-    rep.expect_min("C08.R4", 24, "2x2 style-branch obligations, >=8 validation steps, 8 path classes, store roles, 4 returns")
+    rep.expect_min("C08.R4", 25, "2x2 style-branch obligations, >=8 validation steps, 8 path classes, store roles, 4 returns")
 
 
 # ---------------------------------------------------------------------------
@@ -1445,6 +1946,21 @@ class StrOrigin:
             return {"const"}
         if isinstance(e, ast.Name):
             out: set[str] = set()
+            busy = self.__dict__.setdefault("_busy", set())
+            if (fi.fq, e.id) in busy:
+                return set()  # copy cycle (x = y ... y = x): contributes nothing new
+            busy.add((fi.fq, e.id))
+            try:
+                return self._name_origin(e, fi, bind, depth)
+            finally:
+                busy.discard((fi.fq, e.id))
+        if isinstance(e, ast.Attribute) and isinstance(e.value, ast.Name):
+            return self._field_origin(e, fi, bind, depth)
+        return {"unknown"}
+
+    def _name_origin(self, e: ast.Name, fi: FunctionInfo, bind, depth: int) -> set[str]:
+        if True:
+            out: set[str] = set()
             defs = simple_defs(fi, e.id)
             if e.id in fi.params:
                 if bind is not None and e.id in bind:
@@ -1459,7 +1975,9 @@ class StrOrigin:
                 else:
                     out |= self.string(v, fi, bind, depth + 1)
             return out or {"unknown"}
-        if isinstance(e, ast.Attribute) and isinstance(e.value, ast.Name):
+
+    def _field_origin(self, e: ast.Attribute, fi: FunctionInfo, bind, depth: int) -> set[str]:
+        if True:
             # field of a result object built by a package function
             v = single_value(fi, e.value.id)
             if isinstance(v, ast.Call):
@@ -1608,6 +2126,7 @@ def _judge_merge_guard(rep: Report, entry: FunctionInfo, cfg, st: ast.stmt, X: s
 @rule("C08.R5")
 def r5_body_offset(corpus: Corpus, rep: Report, tier: str):
     rep.rule("C08.R5", "no definition of body_offset combines the line count of a '\\n'.join-ed string with that of another string; the blank-line strip and the offset increment are paired")
+    corpus = inlined(corpus)
     m = corpus.mod(MOD)
     entry = m.func("parse_directive_text")
     cfg = get_cfg(entry)
@@ -1834,6 +2353,7 @@ RE_FUNCS = ("search", "match", "fullmatch", "finditer", "compile", "split", "sub
 def r6_delimiter_regex(corpus: Corpus, rep: Report, tier: str):
     rep.rule("C08.R6", "a regex whose match position cuts the directive content consumes a fixed number of line terminators, and pattern + slice skip exactly one")
     vm = validation_machinery(corpus)
+    corpus = vm.corpus
     f, m = vm.f, vm.f.module
     n = 0
     for call in f.local_nodes():
@@ -2113,6 +2633,24 @@ def mutants(corpus: Corpus):
         add("c08-defaults-reapplied-by-loop-after-merge", "C08.R2", splice(src, mg, seg + f"\n{ind}for _k, _v in {addn}.items():\n{ind}    {mname}[_k] = _v"), "merge of additional options")
     else:
         out.append(("c08-id-renamed-to-name-after-merge", "merge not found"))
+    # ---- class: a return skips merge + validation of the defaults without reporting it (R2)
+    first = fo.node.body[1] if isinstance(fo.node.body[0], ast.Expr) and isinstance(fo.node.body[0].value, ast.Constant) else fo.node.body[0]
+    ind0 = indent_of(fo, first)
+    add("c08-blank-content-early-return", "C08.R2", splice(src, first, f"if not content.strip():\n{ind0}    return _DirectiveOptions(content, {{}}, [], False)\n{ind0}" + ast.get_source_segment(src, first)), "applied or their loss is reported")
+    hob = find_node(fo, lambda n: isinstance(n, ast.Assign) and isinstance(n.value, ast.Compare) and isinstance(n.value.ops[0], ast.IsNot) and isinstance(n.value.comparators[0], ast.Constant) and n.value.comparators[0].value is None)
+    add("c08-no-block-early-return", "C08.R2", splice(src, hob, ast.get_source_segment(src, hob) + f"\n{indent_of(fo, hob)}if not {unparse(hob.targets[0])}:\n{indent_of(fo, hob)}    return _DirectiveOptions(content, {{}}, [], False)") if hob is not None else None, "applied or their loss is reported")
+    if tret is not None and len(tret.value.args) > 2 and isinstance(tret.value.args[2], ast.List):
+        add("c08-tokenize-error-not-reported", "C08.R2", splice(src, tret.value.args[2], "[]"), "applied or their loss is reported")
+    else:
+        out.append(("c08-tokenize-error-not-reported", "tokenizer-error return with a literal warnings list not found"))
+    # ---- class: the option parser runs for directives that declare no options (R4)
+    og = find_node(ft, lambda n: isinstance(n, ast.If) and isinstance(n.test, ast.Attribute) and n.test.attr == "option_spec")
+    if og is not None:
+        t_src = ast.get_source_segment(src, og.test)
+        add("c08-option-spec-is-not-none", "C08.R4", splice(src, og.test, f"{t_src} is not None"), "only looked for when the directive declares options")
+        add("c08-option-spec-isinstance-dict", "C08.R4", splice(src, og.test, f"isinstance({t_src}, dict)"), "only looked for when the directive declares options")
+    else:
+        out.append(("c08-option-spec-is-not-none", "truthiness test on option_spec not found"))
     # ---- class: the option-style tests are no longer exclusive (R4)
     sty2 = find_node(fo, lambda n: isinstance(n, ast.If) and isinstance(parent(n), ast.If) and parent(n).orelse == [n] and any(isinstance(c, ast.Call) and isinstance(c.func, ast.Attribute) and c.func.attr == "startswith" for c in ast.walk(n.test)) and any(isinstance(c, ast.Constant) and c.value == "---" for c in ast.walk(parent(n).test)))
     if sty2 is not None and segment_at(src, sty2, 4) == "elif":
